@@ -1072,6 +1072,10 @@ func (sc *serverConn) discardHeaderBlock(fr *FrameHeader, fragment []byte, field
 		b, err = sc.dec.nextField(hf, blockStart, fieldsProcessed, b)
 		if err != nil {
 			if errors.Is(err, ErrUnexpectedSize) && !fr.Flags().Has(FlagEndHeaders) {
+				if sc.maxHeaderList > 0 && len(pb) > 4*sc.maxHeaderList {
+					return NewGoAwayError(EnhanceYourCalm, "header field exceeds the maximum header list size")
+				}
+
 				sc.discardLeft = append(sc.discardLeft, pb...)
 
 				return nil
@@ -1397,6 +1401,17 @@ func (sc *serverConn) handleHeaderFrame(strm *Stream, fr *FrameHeader) (err erro
 			// CONTINUATION. If END_HEADERS is set, the block is complete and a
 			// truncated field is a decoding error.
 			if errors.Is(err, ErrUnexpectedSize) && len(pb) > 0 && !fr.Flags().Has(FlagEndHeaders) {
+				// The bytes of an unfinished field are kept until the rest
+				// arrives. A field announcing a length it never delivers would
+				// otherwise grow this buffer for as long as the peer sends
+				// CONTINUATION frames: the header list limit only sees fields
+				// that have been decoded. No field within the limit can take
+				// more than four times the limit to encode (the longest Huffman
+				// codes are 30 bits).
+				if sc.maxHeaderList > 0 && len(pb) > 4*sc.maxHeaderList {
+					return NewGoAwayError(EnhanceYourCalm, "header field exceeds the maximum header list size")
+				}
+
 				err = nil
 				strm.previousHeaderBytes = append(strm.previousHeaderBytes, pb...)
 			} else {
